@@ -33,7 +33,12 @@ fn judge(run: &ScriptRun, out: &mut Vec<Violation>) -> (u64, u64, Vec<u64>) {
         let lo = idx.saturating_sub(12);
         json!({"run": run.json(), "detail": extra, "around": run.stream[lo..(idx + 3).min(run.stream.len())].iter().enumerate().map(|(k, p)| format!("{}: toi={} sbn={} esi={}{}", lo + k, p.toi(), p.dec.sbn, p.dec.esi, p.dec.fdt.map(|f| format!(" fdt#{}", f.1)).unwrap_or_default())).collect::<Vec<_>>()})
     };
+    let mut n_start_rule = 0u64;
     let mut reported = BTreeSet::new();
+    // emission rounds of instances: (id, index of the first packet of the round, index of the packet completing it)
+    let mut round_first: BTreeMap<u32, usize> = BTreeMap::new();
+    let mut round_done: Vec<(u32, usize, usize)> = vec![];
+    let mut listed: BTreeMap<u32, BTreeSet<u128>> = BTreeMap::new();
     for (idx, p) in run.stream.iter().enumerate() {
         if p.toi() == 0 {
             n_fdt += 1;
@@ -57,6 +62,12 @@ fn judge(run: &ScriptRun, out: &mut Vec<Violation>) -> (u64, u64, Vec<u64>) {
             }
             st.round.insert(key);
             st.syms.entry(key).or_insert_with(|| p.payload().to_vec());
+            if st.round.len() == 1 {
+                round_first.insert(id, idx);
+            }
+            if st.round.len() == st.need {
+                round_done.push((id, *round_first.get(&id).unwrap_or(&idx), idx));
+            }
             if st.round.len() == st.need && !st.completed_once {
                 st.completed_once = true;
                 completed_instances += 1;
@@ -69,6 +80,7 @@ fn judge(run: &ScriptRun, out: &mut Vec<Violation>) -> (u64, u64, Vec<u64>) {
                     for part in xml.split("TOI=\"").skip(1) {
                         if let Some(t) = part.split('"').next().and_then(|s| s.parse::<u128>().ok()) {
                             announced.insert(t);
+                            listed.entry(id).or_default().insert(t);
                         }
                     }
                 } else {
@@ -104,6 +116,34 @@ fn judge(run: &ScriptRun, out: &mut Vec<Violation>) -> (u64, u64, Vec<u64>) {
                 .witness(wit(idx, json!({"publish_indices": publishes}))));
         }
     }
+    // ObjectsBeingTransferred mode: the start of a transfer publishes a new instance (public StartTransfer event);
+    // that instance is pending from then on and must be sent in full before ANY further object packet - also of
+    // the objects that are already in flight in other sessions / queues
+    if !run.spec.full_fdt {
+        for (k, ev) in &run.sub_events {
+            let t = match ev {
+                SubEv::Start(t, _) => *t,
+                _ => continue,
+            };
+            // first emission round that begins at or after the start, of an instance listing the object
+            let done = round_done.iter().filter(|(id, first, _)| *first >= *k && listed.get(id).map(|l| l.contains(&t)).unwrap_or(false)).map(|(_, _, c)| *c).min();
+            let until = match done {
+                Some(c) => c,
+                None => continue, // the stream ends before the instance is complete (or it could not be decoded)
+            };
+            if let Some((idx, p)) = run.stream.iter().enumerate().skip(*k).take(until.saturating_sub(*k)).find(|(_, p)| p.toi() != 0) {
+                if reported.insert(("s", t)) {
+                    out.push(Violation::new("object_packet_while_published_fdt_pending", format!(
+                        "transfer of TOI {} starts at packet index {} (a new FDT instance is published then and complete at index {}), yet packet {} carries TOI {}",
+                        t, k, until, idx, p.toi()))
+                        .with("mode", mode).with("multi_queue", run.spec.queues.len() > 1)
+                        .witness(wit(idx, json!({"started_toi": t.to_string(), "start_index": k, "instance_complete_at": until}))));
+                }
+            }
+            n_start_rule += 1;
+        }
+    }
+    let _ = n_start_rule;
     (n_obj, n_fdt, states.into_iter().collect())
 }
 
@@ -136,7 +176,7 @@ fn main() {
                 gen::make_fdt_capable(&mut spec.oti);
             }
             spec.fdt_carousel = CarouselSpec::DelayMs(*rng.pick(&[0u64, 100, 1000, 5000]));
-            spec.fdt_duration_s = *rng.pick(&[2u64, 5, 11, 3600]);
+            spec.fdt_duration_s = *rng.pick(&[1u64, 2, 5, 11, 3600]);
             for ob in objs.iter_mut() {
                 if rng.chance(1, 5) {
                     ob.carousel = Some(CarouselSpec::DelayMs(*rng.pick(&[0u64, 100, 500])));
